@@ -408,8 +408,18 @@ fn gen_body_len(rng: &mut Rng, max: usize) -> usize {
 }
 
 fn gen_valid(rng: &mut Rng, which: u64, enrs: &[Enr], with_record: Option<bool>) -> PacketDesc {
+    gen_valid_sized(rng, which, enrs, with_record, None)
+}
+
+/// `below_max`: Some(k) = a body that makes the datagram exactly 1280 - k bytes long (the largest
+/// legal datagram for k = 0); WHOAREYOU packets have no body.
+fn gen_valid_sized(rng: &mut Rng, which: u64, enrs: &[Enr], with_record: Option<bool>, below_max: Option<usize>) -> PacketDesc {
     let kind = gen_kind(rng, which, enrs, with_record);
-    let body = if which == 1 { 0 } else { gen_body_len(rng, max_body(&kind)) };
+    let body = match (which, below_max) {
+        (1, _) => 0,
+        (_, Some(k)) => max_body(&kind).saturating_sub(k),
+        _ => gen_body_len(rng, max_body(&kind)),
+    };
     PacketDesc { iv: rand_iv(rng), message_nonce: arr::<12>(rng), kind, message: rng.bytes(body) }
 }
 
@@ -450,7 +460,13 @@ fn gen_case(rng: &mut Rng, idx: u64, enrs: &[Enr]) -> Gen {
                 3 => (2, Some(true), "valid/handshake+record"),
                 _ => (rng.below(3), None, "valid/mixed"),
             };
-            let d = gen_valid(rng, which, enrs, rec);
+            // every run holds well-formed packets of each kind whose datagram is exactly 1280 bytes
+            // (the largest legal size) and 1279 bytes: every third round of the classes each
+            let d = match (idx / NCLASSES) % 3 {
+                0 => gen_valid_sized(rng, which, enrs, rec, Some(0)),
+                1 => gen_valid_sized(rng, which, enrs, rec, Some(1)),
+                _ => gen_valid(rng, which, enrs, rec),
+            };
             let mut g = mk(name, vec![Step::Encode(d, dst), Step::DecodePrev(dst), Step::DecodePrev(other)]);
             g.roundtrip = true;
             g.foreign_decode = true;
@@ -458,12 +474,14 @@ fn gen_case(rng: &mut Rng, idx: u64, enrs: &[Enr]) -> Gen {
         }
         // ---- outside the quantifier: too long / length bytes that wrap
         5 => {
-            let sub = rng.below(4);
+            // (every fourth round: a datagram of exactly 1281 bytes)
+            let exact = (idx / NCLASSES) % 4 == 0;
+            let sub = if exact { 0 } else { rng.below(4) };
             let d = match sub {
                 0 => {
                     // one byte too many
                     let kind = gen_kind(rng, 0, enrs, None);
-                    let n = max_body(&kind) + 1 + rng.below(3) as usize;
+                    let n = max_body(&kind) + 1 + if exact { 0 } else { rng.below(3) as usize };
                     PacketDesc { iv: rand_iv(rng), message_nonce: arr::<12>(rng), kind, message: rng.bytes(n) }
                 }
                 1 => {
@@ -1043,6 +1061,9 @@ fn run_case(idx: u64, g: &Gen, hist: &mut Hist) -> CaseResult {
                         match &r {
                             DecRes::Ok(p, aad) if p == d && *aad == aad0 => {
                                 hist.add("roundtrip/ok");
+                                if data.len() >= 1279 {
+                                    hist.add(&format!("roundtrip/ok at {} bytes", data.len()));
+                                }
                             }
                             _ => failures.push((format!("C05: round trip failed: decode(encode(p)) = {}", describe(&r)), si)),
                         }
